@@ -33,7 +33,7 @@ XML_LISTS = (NS + "assetAdministrationShells", NS + "submodels", NS + "conceptDe
 DOCUMENTED = (KeyError, ValueError, TypeError, model.AASConstraintViolation)
 
 OPS = ("delete", "null", "wrongtype", "enum", "empty", "overlong", "forbidden", "xsliteral", "base64",
-       "modeltype", "dupid", "wronglist", "harmless")
+       "modeltype", "dupid", "wronglist", "harmless", "nsrebind")
 # "harmless" is the 13th operator: it changes the text of the document without changing its content (XML comments,
 # processing instructions and white space between elements / inside text; JSON insignificant white space, member
 # order, string escapes) - both readers must return exactly the undamaged result
@@ -384,7 +384,7 @@ def xml_applicable(root, path):
     parent = el.getparent()
     name = _lname(el)
     leaf = len(el) == 0
-    ops = ["delete", "null", "wrongtype", "modeltype", "harmless"]
+    ops = ["delete", "null", "wrongtype", "modeltype", "harmless", "nsrebind"]
     if leaf and el.text is not None:
         ops += ["empty", "overlong"]
         if name in PATTERN_KEYS:
@@ -413,6 +413,8 @@ def xml_damage(root, path, op, variant, other_id=None):
     name = _lname(el)
     if op == "harmless":
         return xml_relex(r, el, parent, variant)
+    if op == "nsrebind":
+        return xml_nsrebind(r, el, variant)
     if op == "delete":
         parent.remove(el)
     elif op == "null":
@@ -485,11 +487,32 @@ def xml_damage(root, path, op, variant, other_id=None):
     return r
 
 
+AAS3 = NS[1:-1]
+OLD_NS = "http://www.admin-shell.io/aas/2/0"
+
+
+def _text_cuts(t, variant):
+    """positions at which a comment is put into a text: behind leading / before trailing white space (the parser may
+    take white-space-only character data next to markup for indentation), the ends, and a seeded position"""
+    lead = len(t) - len(t.lstrip())
+    cuts = sorted({lead, len(t.rstrip()), 0, len(t), (variant // 13) % (len(t) + 1)})
+    return cuts[(variant // 13) % len(cuts)]
+
+
+def _retag(text, mapping):
+    """textual change of namespace declarations / prefixes of a serialised document (only in markup)"""
+    import re
+    for a, b in mapping:
+        text = re.sub(a, b, text)
+    return text
+
+
 def xml_relex(r, el, parent, variant):
-    """inserts a comment / processing instruction / white space at or inside node el; the content is unchanged"""
+    """inserts a comment / processing instruction / white space at or inside node el, or spells the namespaces
+    differently; the content is unchanged"""
     def junk(k):
         return etree.Comment(" note ") if k % 2 == 0 else etree.ProcessingInstruction("verif", "x=1")
-    k = variant % 10
+    k = variant % 13
     if k in (0, 1):                                    # before the node (between list items / elements)
         el.addprevious(junk(k))
     elif k in (2, 3):                                  # after the node
@@ -500,20 +523,71 @@ def xml_relex(r, el, parent, variant):
             el.insert(0, j)
         else:
             t = el.text
-            cut = (variant // 10) % (len(t) + 1)
+            cut = _text_cuts(t, variant)
             el.text, j.tail = t[:cut], t[cut:]
             el.insert(0, j)
     elif k == 6:                                       # last child / at the end of the text
-        el.append(junk(variant // 10))
+        el.append(junk(variant // 13))
     elif k == 7:                                       # directly under the root, before the first list
-        r.insert(0, junk(variant // 10))
+        r.insert(0, junk(variant // 13))
     elif k == 8:                                       # after the last list and around the root element
-        r.append(junk(variant // 10))
+        r.append(junk(variant // 13))
         r.addprevious(etree.Comment(" before the root "))
         return RawText(etree.tostring(r.getroottree()))
-    else:                                              # white space between all elements
+    elif k == 9:                                       # white space between all elements
         return RawText(etree.tostring(r, pretty_print=True))
+    elif k == 10:                                      # the AAS namespace as default namespace, no prefix
+        return RawText(_retag(etree.tostring(r).decode(), [(r"<aas:", "<"), (r"</aas:", "</"),
+                                                           (r"xmlns:aas=", "xmlns=")]).encode())
+    elif k == 11:                                      # another prefix for the AAS namespace
+        return RawText(_retag(etree.tostring(r).decode(), [(r"<aas:", "<a3:"), (r"</aas:", "</a3:"),
+                                                           (r"xmlns:aas=", "xmlns:a3=")]).encode())
+    else:                                              # the node's subtree declares the AAS namespace as its default
+        text = etree.tostring(el, with_tail=False).decode()
+        text = _retag(text, [(r"<aas:", "<"), (r"</aas:", "</"), (r"xmlns:aas=", "xmlns=")])
+        new = etree.fromstring(text.encode())
+        new.tail = el.tail
+        if parent is None:
+            return RawText(text.encode())
+        parent.replace(el, new)
     return r
+
+
+def xml_nsrebind(r, el, variant):
+    """damage: binds the prefix `aas` (or the default namespace) to another namespace, e.g. that of an older version
+    of the metamodel, on the root or on one element"""
+    k = variant % 6
+    whole = etree.tostring(r).decode()
+    if k == 0:                                         # the whole document is of the old version
+        return RawText(whole.replace(f'xmlns:aas="{AAS3}"', f'xmlns:aas="{OLD_NS}"', 1).encode())
+    if k == 3:                                         # ... and declares the 3.0 namespace under another prefix
+        return RawText(whole.replace(f'xmlns:aas="{AAS3}"', f'xmlns:aas="{OLD_NS}" xmlns:a3="{AAS3}"', 1).encode())
+    if k in (1, 4):                                    # one element re-binds the prefix (4: its children bind it back)
+        el.set("verifmark", "1")
+        if k == 4:
+            for ch in el:
+                ch.set("verifmark", "2")
+        text = etree.tostring(r).decode()
+        text = _retag(text, [(r'(<aas:[A-Za-z0-9]+) verifmark="1"', r'\1 xmlns:aas="%s"' % OLD_NS),
+                             (r'(<aas:[A-Za-z0-9]+) verifmark="2"', r'\1 xmlns:aas="%s"' % AAS3)])
+        return RawText(text.encode())
+    text = etree.tostring(el, with_tail=False).decode()
+    if k == 2:                                         # the subtree is in the old namespace, as default namespace
+        text = _retag(text, [(r"<aas:", "<"), (r"</aas:", "</"), (r'xmlns:aas="[^"]*"', 'xmlns="%s"' % OLD_NS)])
+    else:                                              # the subtree is in no namespace
+        text = _retag(text, [(r"<aas:", "<"), (r"</aas:", "</"), (r' xmlns:aas="[^"]*"', "")])
+    new = etree.fromstring(text.encode())
+    new.tail = el.tail
+    parent = el.getparent()
+    if parent is None:
+        return RawText(text.encode())
+    parent.replace(el, new)
+    return r
+
+
+def damages_all(op, variant):
+    """operators that damage every identifiable of the document"""
+    return op == "nsrebind" and variant % 6 in (0, 3)
 
 
 # ------------------------------------------------------------------ the oracle on one damaged document
